@@ -437,7 +437,8 @@ class DiscretizedSpace(TensorSpace):
                 """
                 part = space.partition.byaxis[indices]
 
-                if isinstance(space.weighting, ConstWeighting):
+                if (isinstance(space.weighting, ConstWeighting) and
+                        part.is_uniform):
                     # Need to manually construct `tspace` since it doesn't
                     # know where its weighting factor comes from
                     try:
